@@ -17,3 +17,15 @@ package api
 //@   ensures [refused-get-is-not-served] req.Method == "GET" && called("select") && ret("select") != 0 ==> !called("Handler).ServeHTTP") && called("http.Error") && called("Counter).Inc")
 //@   ensures [slot-given-back] count("Gauge).Inc") == count("Gauge).Dec") && count("chan.recv") == count("Gauge).Inc")
 //@   ensures [others-served-without-slot] req.Method != "GET" ==> called("Handler).ServeHTTP") && !called("select")
+
+// C18: how the limiter and the request timeout are nested. The limiter is what the timeout wraps, never the other way
+// round: http.TimeoutHandler answers at the timeout while the handler it wraps keeps running, so a limiter outside it
+// would give its slot back while the GET is still being served. Without a timeout the limiter itself is returned.
+//@ func (*API).limitHandler
+//@   props C18
+//@   nosafe
+//@   requires api != nil
+//@   at call http.TimeoutHandler assert [the-timeout-wraps-the-limiter] typeis(arg0, http.HandlerFunc) && arg1 == api.timeout && api.timeout > 0
+//@   ensures [limiter-returned-without-timeout] api.timeout <= 0 ==> typeis(result, http.HandlerFunc) && !called("http.TimeoutHandler")
+//@   ensures [timeout-wrapper-returned-otherwise] api.timeout > 0 ==> called("http.TimeoutHandler") && result == ret("http.TimeoutHandler")
+//@   noeffect http.TimeoutHandler fmt.Sprintf
